@@ -9,6 +9,7 @@ import shutil
 import signal
 import subprocess
 import tempfile
+import threading
 import time
 
 from . import build
@@ -377,9 +378,36 @@ class Cli:
             # CPU bound: ordinary commands finish in milliseconds; 60 s of CPU on one command is unbounded computation. Vanity searches
             # are bounded logically by the entropy-request cap instead and get a large CPU allowance.
             cpu_s = spec.get("cpu_limit", 900 if ent is not None else 60) * (20 if sanitized else 1)
-            p = subprocess.Popen([w.encode() for w in wrapper] + [self.path.encode()] + bargv, stdin=subprocess.PIPE,
-                                 stdout=subprocess.PIPE, stderr=subprocess.PIPE, env=benv, cwd=d,
-                                 preexec_fn=child_setup(None if sanitized else 4, cpu_s))
+            # stdin is a pipe fed by a writer thread. (Popen.communicate(input, timeout) cannot be used: after a TimeoutExpired a
+            # retry no longer sends the rest of the input nor closes stdin - CPython registers stdin for writing only when the
+            # *argument* is given and refuses the argument on a retry - so a child that had not consumed everything within the
+            # first poll interval would wait for ever and look like a hang.)
+            rfd, wfd = os.pipe()
+            try:
+                p = subprocess.Popen([w.encode() for w in wrapper] + [self.path.encode()] + bargv, stdin=rfd,
+                                     stdout=subprocess.PIPE, stderr=subprocess.PIPE, env=benv, cwd=d,
+                                     preexec_fn=child_setup(None if sanitized else 4, cpu_s))
+            except Exception:
+                os.close(rfd)
+                os.close(wfd)
+                raise
+            os.close(rfd)
+
+            def _feed(fd=wfd, data=stdin):
+                try:
+                    view = memoryview(data)
+                    while len(view):
+                        n = os.write(fd, view[:1 << 16])
+                        view = view[n:]
+                except OSError:
+                    pass  # the child exited or closed its stdin without reading everything
+                finally:
+                    try:
+                        os.close(fd)
+                    except OSError:
+                        pass
+            feeder = threading.Thread(target=_feed, daemon=True)
+            feeder.start()
             obs = {}
             # Termination is not decided on wall-clock: a process that is alive but has made no CPU progress for
             # STALL seconds is blocked ("hang"); one that is still computing when the generous watchdog fires is
@@ -390,7 +418,7 @@ class Cli:
             first = True
             while True:
                 try:
-                    so, se = p.communicate(stdin if first else None, timeout=2.0)
+                    so, se = p.communicate(timeout=2.0)
                     rc = p.returncode
                     if rc < 0:
                         obs["signal"] = -rc
